@@ -8,6 +8,8 @@
    returned to callers.  It never runs the model.  On every datastore state of the history:
      (1) one_confirmed    : for each block CIDR at most one BlockAffinity object is in state confirmed;
      (2) confirmed_match  : a confirmed BlockAffinity (h, c) implies that block c exists and its Affinity field is h;
+     (2') named_has_affinity : a block whose Affinity field is h has a BlockAffinity object (h, c) in some state
+                            (only when no two clients of the case act for the same host);
    on every change of the datastore:
      (3) pending is not ownership:
          - a block is created empty, with Affinity = the creating host (the pending affinity alone gives nothing:
@@ -163,7 +165,23 @@ Definition confirmed_match (d : dump) : bool :=
                          match d_block d c with Some b => optN_eqb (bk_aff b) (Some h) | None => false end
                      | _ => true end) d.
 
-Definition state_ok (d : dump) : bool := one_confirmed d && confirmed_match d.
+(* (2') a block whose Affinity field names host h has an affinity object (h, c) (in any state).  Checked when the
+   clients of the case act for pairwise distinct hosts: it is a theorem there (c22_named_block_has_affinity) and is
+   refuted for two concurrent processes of one host (c22_named_block_has_affinity_same_host_refuted). *)
+Definition named_has_affinity (d : dump) : bool :=
+  forallb (fun kv => match kv with
+                     | (KBlock c, VBlock b) =>
+                         match bk_aff b with
+                         | Some h => match d_aff d h c with Some _ => true | None => false end
+                         | None => true
+                         end
+                     | _ => true end) d.
+
+Fixpoint nodupN (l : list N) : bool :=
+  match l with [] => true | a :: t => negb (existsb (N.eqb a) t) && nodupN t end.
+
+Definition state_ok (distinct : bool) (d : dump) : bool :=
+  one_confirmed d && confirmed_match d && (negb distinct || named_has_affinity d).
 
 Definition same_allocs (b0 b1 : block) (size : nat) : bool :=
   forallb (fun o => attr_opt_eqb (owner_of b0 o) (owner_of b1 o)) (seq 0 size).
@@ -243,7 +261,7 @@ Definition oracle_step (c : case) (st : ostate) (o : obs) : option ostate :=
     | Some opn =>
       let d' := match o_snap o with Some d' => d' | None => os_store st end in
       let w_ok := match o_snap o with
-                  | Some _ => state_ok d' && change_ok cf host opn (os_store st) d'
+                  | Some _ => state_ok (nodupN (map fst (c_clients c))) d' && change_ok cf host opn (os_store st) d'
                   | None => true
                   end in
       let r_ok := match o_done o with
